@@ -485,7 +485,9 @@ impl PartialOrd<Self> for Repeat {
 
 impl Ord for Repeat {
     fn cmp(&self, other: &Self) -> Ordering {
-        self.as_ordinal().cmp(&other.as_ordinal())
+        // `Infinite` is greater than every finite count, including `Times(u32::MAX)`.
+        (*self == Repeat::Infinite, self.as_ordinal())
+            .cmp(&(*other == Repeat::Infinite, other.as_ordinal()))
     }
 }
 
